@@ -1,12 +1,55 @@
 import GridVerif.Model.Proto
 import GridVerif.Model.Elem
+import GridVerif.Model.Harmonics
 
 namespace GridVerif.Driver.C08
-open GridVerif.Proto
+open GridVerif.Proto GridVerif.Harmonics
 
 /-- Line-protocol handler of property C08: `C08.<op> args…` ↦ one answer line
-(`none` = malformed, answered `bad-op`). -/
+(`none` = malformed, answered `bad-op`).
+
+* `C08.ylmCode L θ φ`, `C08.ylmNorm L θ φ` ↦ `ok (L+1)² rows…`
+* `C08.dYlm L θ φ` ↦ `ok n dθ-rows… n dφ-rows…`
+* `C08.solid L r θ φ` ↦ `ok n rows…`
+* `C08.cartToSph px py pz cx cy cz` ↦ `ok r θ φ`
+* `C08.sphToCart r θ φ cx cy cz` ↦ `ok x y z`
+* `C08.convDeriv dr dθ dφ r θ φ` ↦ `ok 3 gx gy gz`
+* `C08.rowIndex l m` ↦ `ok index`;  `C08.lmOrder L` ↦ `ok n l₀ m₀ l₁ m₁ …`. -/
 def handle : List String → Option String
+  | ["C08.ylmCode", L, t, p] => do
+    let L ← pNat L; let t ← pFloat t; let p ← pFloat p
+    pure ("ok " ++ sFloats (ylmCode L t p))
+  | ["C08.ylmNorm", L, t, p] => do
+    let L ← pNat L; let t ← pFloat t; let p ← pFloat p
+    pure ("ok " ++ sFloats (ylmNorm L t p))
+  | ["C08.dYlm", L, t, p] => do
+    let L ← pNat L; let t ← pFloat t; let p ← pFloat p
+    let d := dYlm L t p
+    pure ("ok " ++ sFloats d.1 ++ " " ++ sFloats d.2)
+  | ["C08.solid", L, r, t, p] => do
+    let L ← pNat L; let r ← pFloat r; let t ← pFloat t; let p ← pFloat p
+    pure ("ok " ++ sFloats (solidHarmonics L r t p))
+  | ["C08.cartToSph", px, py, pz, cx, cy, cz] => do
+    let px ← pFloat px; let py ← pFloat py; let pz ← pFloat pz
+    let cx ← pFloat cx; let cy ← pFloat cy; let cz ← pFloat cz
+    let s := cartToSph (px, py, pz) (cx, cy, cz)
+    pure s!"ok {sFloat s.1} {sFloat s.2.1} {sFloat s.2.2}"
+  | ["C08.sphToCart", r, t, p, cx, cy, cz] => do
+    let r ← pFloat r; let t ← pFloat t; let p ← pFloat p
+    let cx ← pFloat cx; let cy ← pFloat cy; let cz ← pFloat cz
+    let s := sphToCart (r, t, p) (cx, cy, cz)
+    pure s!"ok {sFloat s.1} {sFloat s.2.1} {sFloat s.2.2}"
+  | ["C08.convDeriv", dr, dt, dp, r, t, p] => do
+    let dr ← pFloat dr; let dt ← pFloat dt; let dp ← pFloat dp
+    let r ← pFloat r; let t ← pFloat t; let p ← pFloat p
+    pure ("ok " ++ sFloats (convDeriv dr dt dp r t p))
+  | ["C08.rowIndex", l, m] => do
+    let l ← pNat l; let m ← pInt m
+    if m.natAbs ≤ l then pure s!"ok {rowIndex l m}" else pure "index-error"
+  | ["C08.lmOrder", L] => do
+    let L ← pNat L
+    let xs := lmOrder L
+    pure ("ok " ++ String.intercalate " " (toString xs.length :: xs.map (fun lm => s!"{lm.1} {lm.2}")))
   | _ => none
 
 end GridVerif.Driver.C08
